@@ -78,6 +78,69 @@ def extra_classes():
                 s.v += 3
                 s.v -= 1
             mk(f"array {multi} then {f}: in-place add", ns(), body)
+    # a branch that leaves the program: no dead jump may be left behind it (the kernel refuses unreachable instructions)
+    def ens():
+        m = ArrayMap()
+        return dict(m=m, a=m.globalVar("I"), b=m.globalVar("I"), c=m.globalVar("q"))
+    conds = {"eq": lambda s: s.a == 3, "and": lambda s: (s.a == 3) & (s.b > 4), "or": lambda s: (s.a == 3) | (s.b > 4),
+             "not": lambda s: ~(s.a == 3), "bits": lambda s: s.a & 4, "signed": lambda s: s.c < -2,
+             "notbits": lambda s: ~((s.a & 4) != 0), "bitsor": lambda s: ((s.a & 4) != 0) | (s.b == 1),
+             "bitsand": lambda s: (s.b == 1) & ((s.a & 6) != 0)}
+    for cn, cond in conds.items():
+        def then_exits(s, cond=cond):
+            with cond(s) as Else:
+                s.b = 5
+                s.exit(XDPExitCode.DROP)
+            with Else:
+                s.b = 7
+            s.c = 1
+        mk(f"early exit {cn}: body ends in exit, then Else", ens(), then_exits)
+
+        def inner_block_last(s, cond=cond):
+            with cond(s) as Else:
+                s.b = 5
+                with s.b > s.a:
+                    s.exit(XDPExitCode.DROP)
+            with Else:
+                s.b = 7
+            s.c = 1
+        mk(f"early exit {cn}: inner block with exit ends the body, then Else", ens(), inner_block_last)
+
+        def both_inner_exit(s, cond=cond):
+            with cond(s) as Else:
+                with s.b > s.a as E2:
+                    s.exit(XDPExitCode.DROP)
+                with E2:
+                    s.exit(XDPExitCode.TX)
+            with Else:
+                s.b = 7
+            s.c = 1
+        mk(f"early exit {cn}: both inner branches exit, then Else", ens(), both_inner_exit)
+
+        def else_exits(s, cond=cond):
+            with cond(s) as Else:
+                s.b = 5
+            with Else:
+                s.exit(XDPExitCode.DROP)
+            s.c = 1
+        mk(f"early exit {cn}: Else ends in exit", ens(), else_exits)
+
+        def no_else(s, cond=cond):
+            with cond(s):
+                s.exit(XDPExitCode.DROP)
+            s.c = 1
+        mk(f"early exit {cn}: no Else", ens(), no_else)
+
+        def jump_in(s, cond=cond):
+            j = s.jumpIf(s.b == 9)
+            with cond(s) as Else:
+                s.b = 5
+                s.exit(XDPExitCode.DROP)
+            j.target()
+            with Else:
+                s.b = 7
+            s.c = 1
+        mk(f"early exit {cn}: a jump lands between the exit and Else", ens(), jump_in)
     for kf, vf in (("I", "q"), ("H", "I"), ("Q", "B")):
         K = type("K", (Structure,), dict(a=Member(kf)))
         V = type("V", (Structure,), dict(b=Member(vf), c=Member(vf)))
